@@ -267,6 +267,23 @@ pub fn check(case: &Case, idx: u64, acc: &mut Acc) {
                         let swm: Vec<u8> = (0..7u8).filter(|i| sm & (1 << i) != 0).collect();
                         let u = UnionCal::new(vec![c], Some(vec![Cal::new(vec![], swm)]));
                         check_rolls(&u, &bm, z0 - 2, z0 + 8, "UnionCal/mask", case, idx, acc);
+                        // the working weeks split over two members and two settlement calendars, in both orders
+                        if hs % 8 == 5 {
+                            let split = |m: u8| -> (u8, u8) {
+                                let lo_bit = m & m.wrapping_neg();
+                                if m == lo_bit { (0, m) } else { (m & !lo_bit, lo_bit) }
+                            };
+                            let mv = |m: u8| -> Vec<u8> { (0..7u8).filter(|i| m & (1 << i) != 0).collect() };
+                            let (b1, b2) = split(*mask);
+                            let (s1, s2) = split(sm);
+                            let hol: Vec<_> = (0..7).filter(|i| hs & (1 << i) != 0).map(|i| to_ndt(z0 + i)).collect();
+                            for flip in [false, true] {
+                                let members = if flip { vec![Cal::new(vec![], mv(b2)), Cal::new(hol.clone(), mv(b1))] } else { vec![Cal::new(hol.clone(), mv(b1)), Cal::new(vec![], mv(b2))] };
+                                let settles = if flip { vec![Cal::new(vec![], mv(s2)), Cal::new(vec![], mv(s1))] } else { vec![Cal::new(vec![], mv(s1)), Cal::new(vec![], mv(s2))] };
+                                let us = UnionCal::new(members, Some(settles));
+                                check_rolls(&us, &bm, z0 - 2, z0 + 8, "UnionCal/split-weeks", case, idx, acc);
+                            }
+                        }
                     }
                 }
             }
@@ -338,7 +355,7 @@ pub fn run(ctx: &Ctx, replay_file: Option<String>) -> ! {
          split the N / B days), CalType and, for B-free words, Cal; month boundary after every position 0..W on three \
          anchors (leap Feb->Mar, common Feb->Mar, Dec->Jan); every date of the window +-2, 5 modifiers, both \
          settlement flags. (2) all 14 built-in calendars and 5 named unions over EVERY date 1970-2200 (the piped ones also wrapped in the CalType container over 2015-2035, judged against the named calendar's own predicates). (3) all 127 \
-         week masks x 5 settlement masks x every holiday subset of one week. (4) long runs of 12..70 and of 365, 366, 367, 400, 430, 800 consecutive closures \
+         week masks x 5 settlement masks x every holiday subset of one week (for an eighth of the subsets also as a union whose two members and two settlement calendars each close only some of the weekdays, in both listing orders). (4) long runs of 12..70 and of 365, 366, 367, 400, 430, 800 consecutive closures \
          at every alignment against two month ends, with and without settlement closures right after the run. Every adjustment is made through roll(modifier, settlement) and through the named method behind it; the five predicates are checked for mutual consistency on every date. Oracle: linear searches on a bitmap of \
          the calendar's definition (the word / the week masks and holidays) - for the named calendars, of their own \
          is_bus_day / is_settlement: following = first eligible >= d, previous = last eligible \
